@@ -1,0 +1,45 @@
+//go:build verif
+
+package rib
+
+// This file is only compiled with the "verif" build tag. It adds read-only
+// observation points for the verification harness in /verif; it changes no
+// existing behaviour.
+
+// VerifPending returns a copy of the set of held (pending) operations, keyed by
+// operation ID, with the network instance each was sent to.
+func (r *RIB) VerifPending() map[uint64]string {
+	r.pendMu.RLock()
+	defer r.pendMu.RUnlock()
+	out := make(map[uint64]string, len(r.pendingEntries))
+	for id, e := range r.pendingEntries {
+		out[id] = e.ni
+	}
+	return out
+}
+
+// VerifRefCount is a copy of the reference counters of one network instance.
+type VerifRefCount struct {
+	NextHop      map[uint64]uint64
+	NextHopGroup map[uint64]uint64
+}
+
+// VerifRefCounts returns a copy of the per network instance reference counters.
+func (r *RIB) VerifRefCounts() map[string]VerifRefCount {
+	r.nrMu.RLock()
+	defer r.nrMu.RUnlock()
+	out := make(map[string]VerifRefCount, len(r.niRIB))
+	for name, niR := range r.niRIB {
+		niR.refCounts.mu.RLock()
+		c := VerifRefCount{NextHop: map[uint64]uint64{}, NextHopGroup: map[uint64]uint64{}}
+		for k, v := range niR.refCounts.NextHop {
+			c.NextHop[k] = v
+		}
+		for k, v := range niR.refCounts.NextHopGroup {
+			c.NextHopGroup[k] = v
+		}
+		niR.refCounts.mu.RUnlock()
+		out[name] = c
+	}
+	return out
+}
